@@ -486,7 +486,7 @@ theorem eval_clean_is_run (s : WI) (ops : List Op) : runE {} s ops = run s ops :
     are evaluated before the first action is scheduled — and the task becomes ERROR; the RUNNING
     children and pending completions it had before are untouched, none is added -/
 theorem input_failure_starts_nothing (e : EvalSpec) (s : WI) (hi : e.itemsOk = true)
-    (hf : inputFails e (prepare s) = true) :
+    (hf : inputFails e (!s.prepared) (prepare s) = true) :
     (scheduleEval e s).items = s.items ∧ (scheduleEval e s).tstate = .error ∧
       running (scheduleEval e s) = running s ∧ (scheduleEval e s).unhandled = s.unhandled :=
   scheduleEval_input_failure e s hi hf
@@ -494,19 +494,21 @@ theorem input_failure_starts_nothing (e : EvalSpec) (s : WI) (hi : e.itemsOk = t
 /-- … in particular in the start transaction: nothing is started at all -/
 theorem input_failure_at_start_starts_nothing (e : EvalSpec) (n : Nat) (c : Option Nat) (r : Nat)
     (hi : e.itemsOk = true) (hc : e.concOk = true)
-    (hf : inputFails e (prepare { init n c r with tstate := .running, concurrency := policyConc c }) = true) :
+    (hf : inputFails e true (prepare { init n c r with tstate := .running, concurrency := policyConc c }) = true) :
     (stepE e (init n c r) .start).items = [] ∧ (stepE e (init n c r) .start).tstate = .error := by
-  have h := scheduleEval_input_failure e { init n c r with tstate := .running, concurrency := policyConc c } hi hf
+  have h := scheduleEval_input_failure e { init n c r with tstate := .running, concurrency := policyConc c } hi
+    (by simpa [init] using hf)
   simp only [stepE, init, hc] at h ⊢
   exact ⟨h.1, h.2.1⟩
 
--- non-vacuity: 4 items, the input of item 2 fails: no limit → nothing starts; limit 2 → items 0, 1
--- start (their inputs are the portion), the failure comes in the round that reaches item 2
+-- non-vacuity: 4 items, the input of item 2 fails: nothing starts, with or without a limit (since
+-- the repository fix the inputs of ALL items are checked when the task is (re)started; before it,
+-- under limit 2, items 0 and 1 started and the task failed in the round that reached item 2)
 example : (stepE { badInputs := [2] } (init 4 none 0) .start).items = [] ∧
     (stepE { badInputs := [2] } (init 4 none 0) .start).tstate = .error ∧
-    (stepE { badInputs := [2] } (init 4 (some 2) 0) .start).items.length = 2 ∧
-    (runE { badInputs := [2] } (init 4 (some 2) 0) [.start, .result 0 .success, .result 1 .success, .handled]).tstate = .error ∧
-    (runE { badInputs := [2] } (init 4 (some 2) 0) [.start, .result 0 .success, .result 1 .success, .handled]).items.length = 2 := by
+    (stepE { badInputs := [2] } (init 4 (some 2) 0) .start).items = [] ∧
+    (stepE { badInputs := [2] } (init 4 (some 2) 0) .start).tstate = .error ∧
+    (runE { badInputs := [2] } (init 4 (some 2) 0) [.start, .rerun true, .rerun false]).items = [] := by
   decide
 
 /-- a transaction that creates action executions never completes their task: whenever an operation
@@ -614,60 +616,45 @@ theorem index_in_range_all_tables (e : EvalSpec) (n : Nat) (c : Option Nat) (r :
     rw [this]; rfl
   omega
 
-/-- "never has more than the configured concurrency running at once" at full strength over the
-    failure tables is FALSE of the code: with limit 2 and items 0..3 whose last input fails, the
-    round that reaches item 3 (a completion job) fails the task while item 2 is still RUNNING; the
-    rerun with reset then starts two more next to it: 3 RUNNING.  Replayed on the real engine
-    (corpus/C07; known finding `running-exceeds-concurrency / rerun-after-late-input-failure`). -/
-theorem running_le_concurrency_all_tables_full_fails :
-    ¬ (∀ (e : EvalSpec) (n k r : Nat) (ops : List Op), running (runE e (init n (some (k + 1)) r) ops) ≤ k + 1) := by
-  intro h
-  have := h { badInputs := [3] } 4 1 0
-    [.start, .result 0 .success, .handled, .result 1 .success, .handled, .rerun true]
-  revert this
-  decide
+/-- Every failure table is of one of two kinds: something below `n` cannot be evaluated (the items
+    expression, `concurrency`, or the input of an item) — then NOTHING is ever started, by no
+    operation sequence; or nothing can fail — then the history is the evaluation-clean one.  (True
+    since the repository fix "a with-items task checks the inputs of all items before it starts any
+    of them": before it an input could fail in a later concurrency round.) -/
+theorem eval_failure_or_clean (e : EvalSpec) (n : Nat) (c : Option Nat) (r : Nat) (ops : List Op) :
+    (runE e (init n c r) ops).items = [] ∨ runE e (init n c r) ops = run (init n c r) ops :=
+  runE_cases e n c r ops
 
-/-- it holds when no item input fails (whatever happens to the items expression and `concurrency`) -/
-theorem running_le_concurrency_all_tables_partial (e : EvalSpec) (hb : e.badInputs = []) (n k r : Nat)
-    (ops : List Op) : running (runE e (init n (some (k + 1)) r) ops) ≤ k + 1 := by
-  by_cases h1 : e.itemsOk = true
-  · by_cases h2 : e.concOk = true
-    · rw [evalSpec_clean_eq e h1 h2 hb, runE_clean]
-      exact running_le_concurrency n k r ops
-    · have := (dead_runE e (Or.inr (by simpa using h2)) (dead_init n (some (k + 1)) r) ops).1
-      simp [running, this]
-  · have := (dead_runE e (Or.inl (by simpa using h1)) (dead_init n (some (k + 1)) r) ops).1
-    simp [running, this]
+/-- "never has more than the configured concurrency running at once" at FULL strength over all
+    failure tables (the former counter-witness — limit 2, items 0..3, the input of item 3 fails in
+    the round that reaches it while item 2 is RUNNING, rerun with reset → 3 RUNNING — is a regression
+    in corpus/C07: nothing is started any more) -/
+theorem running_le_concurrency_all_tables (e : EvalSpec) (n k r : Nat) (ops : List Op) :
+    running (runE e (init n (some (k + 1)) r) ops) ≤ k + 1 := by
+  rcases runE_cases e n (some (k + 1)) r ops with h | h
+  · simp [running, h]
+  · rw [h]; exact running_le_concurrency n k r ops
 
-/-- "completes only after every item has completed", failure side, at full strength: FALSE of the
-    code — an item input that fails in a LATER concurrency round fails the task while siblings are
-    RUNNING (known finding `task-completed-before-all-items / input-evaluation-failed-in-later-round`) -/
-theorem error_task_has_no_running_child_full_fails :
-    ¬ (∀ (e : EvalSpec) (n : Nat) (c : Option Nat) (r : Nat) (ops : List Op),
-        (runE e (init n c r) ops).tstate = .error → running (runE e (init n c r) ops) = 0) := by
-  intro h
-  have := h { badInputs := [3] } 4 (some 2) 0
-    [.start, .result 0 .success, .handled, .result 1 .success, .handled]
-  revert this
-  decide
+example : running (runE { badInputs := [3] } (init 4 (some 2) 0)
+    [.start, .result 0 .success, .handled, .result 1 .success, .handled, .rerun true]) = 0 ∧
+    running (runE { badInputs := [7] } (init 4 (some 2) 0) [.start, .result 0 .success, .handled]) = 2 := by decide
 
-/-- it holds (under a limit) when no item input fails: an ERROR task has no RUNNING child and no
-    unhandled completion -/
-theorem error_task_has_no_running_child_partial (e : EvalSpec) (hb : e.badInputs = []) (n k r : Nat)
-    (ops : List Op) (herr : (runE e (init n (some (k + 1)) r) ops).tstate = .error) :
+/-- "completes only after every item has completed", failure side, at FULL strength (under a limit):
+    an ERROR task has no RUNNING child, for every failure table (the former counter-witness — a
+    later-round input failure with a RUNNING sibling — is a regression in corpus/C07) -/
+theorem error_task_has_no_running_child (e : EvalSpec) (n k r : Nat) (ops : List Op)
+    (herr : (runE e (init n (some (k + 1)) r) ops).tstate = .error) :
     running (runE e (init n (some (k + 1)) r) ops) = 0 := by
-  by_cases h1 : e.itemsOk = true
-  · by_cases h2 : e.concOk = true
-    · rw [evalSpec_clean_eq e h1 h2 hb, runE_clean] at herr ⊢
-      have hi := cap_inv_reachable n (some (k + 1)) r ops
-      have hconc := (hi.conc (by rw [herr]; simp)).1
-      rw [(run_spec _ ops).2] at hconc
-      have hp : policyConc (init n (some (k + 1)) r).specConc = some (k + 1) := by simp [init, policyConc, truthy]
-      obtain ⟨_, cap, _, _, _, hz⟩ := hi.lim (k + 1) (by rw [hconc, hp])
-      exact (hz (Or.inr (Or.inr herr))).1
-    · have := (dead_runE e (Or.inr (by simpa using h2)) (dead_init n (some (k + 1)) r) ops).1
-      simp [running, this]
-  · have := (dead_runE e (Or.inl (by simpa using h1)) (dead_init n (some (k + 1)) r) ops).1
-    simp [running, this]
+  rcases runE_cases e n (some (k + 1)) r ops with h | h
+  · simp [running, h]
+  · rw [h] at herr ⊢
+    have hi := cap_inv_reachable n (some (k + 1)) r ops
+    have hconc := (hi.conc (by rw [herr]; simp)).1
+    rw [(run_spec _ ops).2] at hconc
+    have hp : policyConc (init n (some (k + 1)) r).specConc = some (k + 1) := by simp [init, policyConc, truthy]
+    obtain ⟨_, cap, _, _, _, hz⟩ := hi.lim (k + 1) (by rw [hconc, hp])
+    exact (hz (Or.inr (Or.inr herr))).1
+
+example : (runE { badInputs := [3] } (init 4 (some 2) 0) [.start]).tstate = .error := by decide
 
 end Mistral.Props.C07
